@@ -299,6 +299,10 @@ def gen_fn_args(rng, fn, kind, shape):
             return bigger() + [rows, cols]
         if kind == "smaller":
             return smaller() + [rows, cols]
+        if kind == "inner1":                # same rank as the operator, an INTERIOR size-1 batch dimension that is broadcast
+            return (batch[:-1] + [1] if len(batch) >= 2 else ([1] if batch else [])) + [rows, cols]
+        if kind == "lead1":                 # same rank, a LEADING size-1 batch dimension
+            return ([1] + batch[1:] if batch else []) + [rows, cols]
         if kind == "mid1":                  # fewer dimensions than the operator and a size-1 dimension that is broadcast
             return (batch[1:-1] + [1] if len(batch) >= 2 else [1]) + [rows, cols]
         if kind == "bcast3":                # one more leading dimension, and the operator's size-1 batch dimensions expanded
@@ -312,8 +316,9 @@ def gen_fn_args(rng, fn, kind, shape):
             a["lhs"] = ob.rand_t(rng, [m])
         else:
             p = rng.choice([1, 2])
-            a["lhs"] = ob.rand_t(rng, {"mat": [p, m], "batched": batch + [p, m], "bcast": bigger() + [p, m],
-                                       "smaller": smaller() + [p, m]}[kind])
+            a["lhs"] = ob.rand_t(rng, rshape(kind, p, m) if kind in ("inner1", "lead1", "mid1", "bcast3") else
+                                 {"mat": [p, m], "batched": batch + [p, m], "bcast": bigger() + [p, m],
+                                  "smaller": smaller() + [p, m]}[kind])
     elif fn in ("solve", "sqrt_inv_matmul"):
         a["rhs"] = ob.rand_t(rng, rshape(kind, n, rng.choice([1, 2])))
     elif fn in ("solve_lhs", "sqrt_inv_matmul_lhs"):
